@@ -258,6 +258,10 @@ static bool run_transition(const Cli& cli, const History& hist, const Op& o, int
     env::L().fail_at = 0;
     allocs_out = env::L().allocs_this_op;
     const bool in_fault = fail_at != 0;
+    // canonical form of the reached state: taken right after the operation, before any monitor runs (monitors build
+    // temporary vectors; if the library leaks one of their blocks the ledger part of the canon would differ from
+    // what a plain replay of the history reaches)
+    std::string canon = (in_fault || !completed) ? std::string("-") : e->canon();
     if (in_fault && completed && env::L().faults_thrown == 0)
     {
         // fewer allocations than fail_at: nothing injected
@@ -280,7 +284,6 @@ static bool run_transition(const Cli& cli, const History& hist, const Op& o, int
         if (env::viols().empty() && cli.prm.on("C19")) e->footprint_monitors();
 #endif
     }
-    std::string canon = in_fault ? std::string("-") : e->canon();
     const Ctx ctx = e->ctx();
     // terminal check: destroy everything, the ledger and the registry must be empty (only from a clean state)
     bool clean = env::viols().empty() && g_asan_reports == 0 && replay_noise == 0;
